@@ -174,8 +174,9 @@ class Ctx:
         self.inputs[key] = v
         return v
 
-    def int(self, name):
-        return self._input(name, z3.IntSort(), 0)
+    def int(self, name, sample=0):
+        # `sample`: the value native runs use when no model gives one (replay of a path the engine could not decide)
+        return self._input(name, z3.IntSort(), sample)
 
     def bool(self, name):
         return self._input(name, z3.BoolSort(), False)
@@ -184,8 +185,8 @@ class Ctx:
         v = self._input(name, z3.RealSort(), 0.0)
         return float(v) if self.mode != 'sym' else v
 
-    def str(self, name):
-        return self._input(name, z3.StringSort(), "")
+    def str(self, name, sample=""):
+        return self._input(name, z3.StringSort(), sample)
 
     def enum(self, name, values):
         """a string drawn from a finite list of literals"""
